@@ -29,8 +29,8 @@ def exFile : FsEntry := ⟨{ name := ⟨[0x61], -1⟩, kind := .file, perms := 0
 def exTree : Tree := .node (recOf exRoot) (.cons (.node (recOf exFile) .nil) .nil)
 
 theorem ex_listing : ListingOK [exRoot, exFile] [] [] := by
-  refine ⟨⟨⟨[], cleanComps_nil false, by simp [exRoot, ofComps]⟩, by decide, by decide, by decide, by decide, by decide, by decide⟩, by decide, by decide, ?_⟩
-  refine ⟨⟨mustRel_clean [0x61] _ (by decide), by decide, by decide, by decide, by decide, by decide, by decide⟩, by decide, by decide, trivial⟩
+  refine ⟨⟨⟨[], cleanComps_nil false, by simp [exRoot, ofComps]⟩, by decide, by decide, by decide, by decide, by decide, by decide⟩, by decide, by decide, by decide, ?_⟩
+  refine ⟨⟨mustRel_clean [0x61] _ (by decide), by decide, by decide, by decide, by decide, by decide, by decide⟩, by decide, by decide, by decide, trivial⟩
 
 theorem ex_wf : WFRoot exTree := by
   refine ⟨rfl, Or.inl ⟨rfl, by decide, ?_⟩⟩
@@ -43,16 +43,18 @@ example (H : Bytes → Bytes) :
 
 /-- **The same for every real fileset, with no hypothesis left about the listing**: a fileset given by component names
     (`LTree`: components normal — non-empty, no `/`, not `.` or `..` —, only directories have children, siblings in key
-    order) whose attributes lie in the tar format's domain (`AttrsOK`: 12-bit permissions, 32-bit ids, whole-second
+    order, no path both a directory and something else: `hpaths`, which the file system guarantees and — since the
+    `fix:` — the unpacker checks) whose attributes lie in the tar format's domain (`AttrsOK`: 12-bit permissions, 32-bit ids, whole-second
     mtimes, no sockets / hard links, content hashes on files only).  Its pre-order listing — a directory before what it
     contains, the order `fs.Walk` delivers — packs to `specId`, and the scan of the headers that pack wrote reports
     `specId` twice.  (`Rio/Proofs/ListingOfTree.lean`: the pre-order listing of such a tree is `ListingOK`.) -/
 theorem C02_scan_of_pack_fileset (H : Bytes → Bytes) (mu mg : Nat) (m : Meta) (ch : Bytes) (kids : LForest)
-    (hshape : (m.kind = .dir ∧ LWFF kids) ∨ (m.kind ≠ .dir ∧ kids = .nil)) (hattr : AttrsOK m ch) (hgood : LGoodF kids) :
+    (hshape : (m.kind = .dir ∧ LWFF kids) ∨ (m.kind ≠ .dir ∧ kids = .nil)) (hattr : AttrsOK m ch) (hgood : LGoodF kids)
+    (hpaths : ∀ r ∈ flatten (toRoot m ch kids), ∀ r' ∈ flatten (toRoot m ch kids), r'.name ≠ recordName (twinOf r.m)) :
     packId H .tar losslessPackF ((flatten (toRoot m ch kids)).map entOf) = .ok (specId H (toRoot m ch kids)) ∧
     unpackTar H nilOps mu mg losslessUnpack (hdrsOf ((flatten (toRoot m ch kids)).map entOf)) .eof () =
       .ok ((), specId H (toRoot m ch kids), specId H (toRoot m ch kids)) :=
-  scan_of_pack_fileset H mu mg m ch kids hshape hattr hgood
+  scan_of_pack_fileset H mu mg m ch kids hshape hattr hgood hpaths
 
 /-! a fileset that meets the hypotheses: `./`, `./a` (file), `./d/`, `./d/x` (symlink) (test) -/
 
@@ -94,6 +96,15 @@ example (H : Bytes → Bytes) :
     packId H .tar losslessPackF ((flatten (toRoot (exM .dir 0o755) [] exKids)).map entOf) =
       .ok (specId H (toRoot (exM .dir 0o755) [] exKids)) :=
   (C02_scan_of_pack_fileset H 0 0 (exM .dir 0o755) [] exKids (Or.inl ⟨rfl, ex_lwff⟩)
-    (exAttrs _ _ _ (by decide) (by decide) (fun _ => rfl)) ex_lgood).1
+    (exAttrs _ _ _ (by decide) (by decide) (fun _ => rfl)) ex_lgood (by decide)).1
+
+/-- what the hypothesis `hpaths` excludes: a listing with `./a` (file) and `./a/` (directory) is refused by the unpack
+    model as a corrupt ware (before the `fix:` it was given a wareID that no unpack onto a file system could deliver) -/
+example : (match unpackEntries nilOps 0 0 losslessUnpack
+    [⟨[0x2e, 0x2f], 0x35, 0o755, 0, 0, 0, [], 0, 0, ⟨0, 0⟩, [], [], true⟩,
+     ⟨[0x61], 0x30, 0o644, 0, 0, 0, [], 0, 0, ⟨0, 0⟩, [], [], true⟩,
+     ⟨[0x61, 0x2f], 0x35, 0o755, 0, 0, 0, [], 0, 0, ⟨0, 0⟩, [], [], true⟩] ⟨(), [], [], []⟩ with
+    | .err c => decide (c = .wareCorrupt) | _ => false) = true := by
+  decide
 
 end Rio
